@@ -224,8 +224,10 @@ def run_valgrind(binary, prop, seed, VERIF, TARGET, log):
             if os.path.exists(fpath):
                 os.remove(fpath)
         lg = open(os.path.join(rundir, f"shard_{i}.log"), "w")
+        # (module, driver and repository paths are passed explicitly: the defaults of the binary point into /verif)
         cmd = [exe, "--seed", str(seed + 7), "--shard", f"{i}/{n}", "--tier", "quick", "--out", out, "--param", "cases=36",
-               "--param", "valgrind=1", "--param", f"rundir={rundir}"]
+               "--param", "valgrind=1", "--param", f"rundir={rundir}", "--param", "moddir=" + os.path.join(TARGET, "py", "mod"),
+               "--param", "driver=" + os.path.join(VERIF, "harness/pydrv/driver.py"), "--param", "repo=" + os.environ.get("VERIF_REPO", "/repo")]
         procs.append((i, subprocess.Popen(cmd, stdout=lg, stderr=subprocess.STDOUT), out, lg))
     blocks_total = 0
     ours = 0
